@@ -431,6 +431,10 @@ fn eval_paste(req: &str) -> ImplOut {
     if std::env::var("VERIF_DEBUG").is_ok() {
         eprintln!("area r0={r0} c0={c0} h={h} w={w} cut={is_cut} target=({tr},{tc})\nAFTER:\n{}", wbgen::snapshot(m.get_model()));
     }
+    // a moved formula that turns out to be a dynamic array at its new place is position dependent
+    if !src.iter().all(|((rr, cc), _, _)| single(&m, tr + (rr - r0), tc + (cc - c0))) {
+        judged = false;
+    }
     out.ans = if judged { "pasted".into() } else { "pasted-not-judged".into() };
     if !judged {
         return out.trivial();
